@@ -93,3 +93,9 @@ pub open spec fn nonce_of(prefix: Seq<u8>, ctr: u32) -> Seq<u8> { prefix + be32(
 pub fn build_nonce(nonce_prefix: [u8; 8], current_ctr: u32) -> (r: Nonce)
     ensures r@ == nonce_of(nonce_prefix@, current_ctr),
 { unimplemented!() }
+
+// x25519_dalek::{StaticSecret, PublicKey} : opaque 32-byte values (curve arithmetic is not modelled)
+#[verifier::external_body]
+pub struct StaticSecret { _p: [u8; 32] }
+#[verifier::external_body]
+pub struct PublicKey { _p: [u8; 32] }
